@@ -629,6 +629,27 @@ impl Runner for R {
                     }
                 };
                 let (st, v) = self.collect("pump");
+                // A request handed to the channel must be taken as soon as a slot is free: after this poll
+                // (which first times out what is overdue) a free slot and a waiting message cannot coexist.
+                let v = match v {
+                    Verdict::Ok
+                        if !txt.starts_with("sent")
+                            && !self.channel.is_empty()
+                            && self.transport.as_ref().unwrap().pending().len() < self.max_inflight =>
+                    {
+                        Verdict::fail(
+                            "queued_request_taken",
+                            "pump",
+                            format!(
+                                "{} message(s) wait in the request channel, {} of {} slots are in use, but the transport took none",
+                                self.channel.len(),
+                                self.transport.as_ref().unwrap().pending().len(),
+                                self.max_inflight
+                            ),
+                        )
+                    }
+                    v => v,
+                };
                 (format!("ok {} {}", txt, st), v)
             }
             ["sweep"] => {
